@@ -16,8 +16,18 @@ SNeg(B) == NormS([neg |-> ~B.neg, m |-> B.m])
 Expected(o) == CASE o.op = "+" -> SAdd(Signed(o.a), Signed(o.b))
                  [] o.op = "-" -> SAdd(Signed(o.a), SNeg(Signed(o.b)))
                  [] o.op = "*" -> NormS([neg |-> (o.a.neg # (o.k < 0)), m |-> BNorm(BMulAdd(BOfDigits(o.a.ds), IF o.k < 0 THEN -o.k ELSE o.k, 0))])
+(* order of signed integers, for the comparison operators (C07: numbers order numerically) *)
+SLt(A, B) == IF A.neg /\ ~B.neg THEN TRUE ELSE IF ~A.neg /\ B.neg THEN FALSE
+             ELSE IF A.neg THEN BLt(B.m, A.m) ELSE BLt(A.m, B.m)
+CmpExpected(o) == LET A == NormS(Signed(o.a)) B == NormS(Signed(o.b)) IN
+  CASE o.op = "<" -> SLt(A, B) [] o.op = ">" -> SLt(B, A) [] o.op = "=" -> A = B [] o.op = "<>" -> A # B
+    [] o.op = "<=" -> ~SLt(B, A) [] o.op = ">=" -> ~SLt(A, B)
+IsCmp(o) == o.op \in {"<", ">", "=", "<>", "<=", ">="}
 Same(x, e) == x.int /\ NormS([neg |-> x.neg, m |-> BOfDigits(x.ds)]) = e
 Failing(o) ==
+  IF IsCmp(o) THEN (IF o.truth = "TRUE" /\ CmpExpected(o) THEN <<>> ELSE IF o.truth = "FALSE" /\ ~CmpExpected(o) THEN <<>>
+                    ELSE <<"numeric_order">>)
+  ELSE
   (IF ~Same(o.out, Expected(o)) THEN <<"exact_value">> ELSE <<>>)
   \o (IF o.op \in {"+", "*"} /\ ~Same(o.out2, Expected(o)) THEN <<"swapped_value">> ELSE <<>>)
 Verdict(o) == LET f == Failing(o) IN IF f = <<>> THEN <<"ok">> ELSE <<"bad">> \o f
